@@ -55,7 +55,11 @@ func (a *HttpClient) Connect(port int, ipk int) bool {
 	case "post":
 		req = fmt.Sprintf("POST %s HTTP/1.1\r\nHost: sim\r\nContent-Type: application/json\r\nContent-Length: %d\r\nConnection: close\r\n\r\n%s", a.Path, len(a.Body), a.Body)
 	default:
-		req = fmt.Sprintf("GET %s HTTP/1.1\r\nHost: sim\r\nUser-Agent: simlal\r\nAccept: */*\r\n\r\n", a.Path)
+		extra := ""
+		if a.Mode == "get" {
+			extra = "Connection: close\r\n"
+		}
+		req = fmt.Sprintf("GET %s HTTP/1.1\r\nHost: sim\r\nUser-Agent: simlal\r\nAccept: */*\r\n%s\r\n", a.Path, extra)
 	}
 	a.Conn.Send([]byte(req))
 	a.reqEndOff = a.Conn.TotalQueued
@@ -69,6 +73,9 @@ func (a *HttpClient) OnData(c *sim.Conn, b []byte) {
 	}
 	if a.HeaderStep < 0 {
 		a.HeaderStep = a.K.Step()
+	}
+	if a.Mode == "get" || a.Mode == "post" {
+		return // the whole body stays in Resp.Body
 	}
 	body := a.Resp.TakeBody()
 	if len(body) == 0 {
@@ -90,8 +97,6 @@ func (a *HttpClient) OnData(c *sim.Conn, b []byte) {
 			a.WsFrames++
 			a.TsBytes = append(a.TsBytes, f.Payload...)
 		}
-	default:
-		a.Resp.Body = append(a.Resp.Body, body...) // keep for plain GET/POST
 	}
 }
 
@@ -102,6 +107,7 @@ func (a *HttpClient) feedFlv(b []byte) {
 }
 
 func (a *HttpClient) OnClose(c *sim.Conn) {
+	a.Resp.MarkClosed()
 	a.Closed = true
 	a.ClosedStep = a.K.Step()
 }
